@@ -264,10 +264,14 @@ func genSysl(r *common.Rng, o genOpts) string {
 		if len(a.eps) > 0 && r.Chance(2, 3) {
 			fmt.Fprintf(&b, "    .. * <- *:\n")
 			n := 1 + r.Intn(3)
+			scalarCollector := r.Bool() // scalar attributes only: re-import must then be exact
 			for j := 0; j < n; j++ {
 				at := genAttrs(r)
 				if at == "" {
 					at = " [~c]"
+				}
+				if scalarCollector {
+					at = fmt.Sprintf(" [k%d=%s, s%d=%s]", r.Intn(3), qstr("v"+fmt.Sprint(r.Intn(3))), r.Intn(2), qstr(hostile(r, 2)))
 				}
 				if r.Bool() {
 					fmt.Fprintf(&b, "        %s%s\n", a.eps[r.Intn(len(a.eps))], at)
@@ -496,11 +500,35 @@ func hasMixinChain(m *sysl.Module, appKey string) bool {
 	}
 	for _, s := range a.Mixin2 {
 		src := syslutil.GetApp(s.Name, m)
-		if src != nil && len(src.Mixin2) > 0 {
+		// a source that is processed AFTER this application (sorted later) and has mixins of its own
+		if src != nil && len(src.Mixin2) > 0 && syslutil.GetAppName(s.Name) > appKey {
 			return true
 		}
 	}
 	return false
+}
+
+// does the collector of this application carry an array-valued attribute?
+func collectorHasArrayAttr(a *sysl.Application) bool {
+	c := a.GetEndpoints()[collectorName]
+	for _, s := range c.GetStmt() {
+		for _, at := range s.Attrs {
+			if _, ok := at.GetAttribute().(*sysl.Attribute_A); ok {
+				return true
+			}
+		}
+	}
+	return false
+}
+
+// the side of the boundary of C09_post_idempotent: scalar collector attributes only, mixin sources settled
+func insideBoundary(m *sysl.Module) bool {
+	for k, a := range m.Apps {
+		if collectorHasArrayAttr(a) || hasMixinChain(m, k) {
+			return false
+		}
+	}
+	return true
 }
 
 const collectorName = `.. * <- *`
@@ -531,10 +559,10 @@ func classifyReimport(orig, re *sysl.Module) map[string]string {
 			n := len(d.path)
 			switch {
 			case d.kind == "len" && n >= 4 && d.path[n-1] == "elt" && d.path[n-2] == "a" && strings.HasPrefix(d.path[n-3], "[") && d.path[n-4] == "attrs" &&
-				len(d.path) > 2 && d.path[1] == "endpoints" && d.path[2] != "["+collectorName+"]" && a.Endpoints[collectorName] != nil && onlyRepeats(d.a.List(), d.b.List()):
+				len(d.path) > 2 && d.path[1] == "endpoints" && d.path[2] != "["+collectorName+"]" && collectorHasArrayAttr(a) && onlyRepeats(d.a.List(), d.b.List()):
 				keys["reimport:collector-array-attr"] = fmt.Sprintf("%s: %d elements became %d (collector attributes appended again)", p, d.a.List().Len(), d.b.List().Len())
 			case d.kind == "len" && n >= 6 && d.path[n-1] == "elt" && d.path[n-2] == "a" && strings.HasPrefix(d.path[n-3], "[") && d.path[n-4] == "attrs" &&
-				d.path[1] == "endpoints" && d.path[2] == "["+collectorName+"]" && d.path[3] == "stmt" && onlyRepeats(d.a.List(), d.b.List()):
+				d.path[1] == "endpoints" && d.path[2] == "["+collectorName+"]" && d.path[3] == "stmt" && collectorHasArrayAttr(a) && onlyRepeats(d.a.List(), d.b.List()):
 				// the same append, seen through Go's pointer sharing: a target that holds the collector statement's own
 				// attribute object (dst[k] = v) is appended to by a later collector statement
 				keys["reimport:collector-array-attr:own-statement"] = fmt.Sprintf("%s: %d elements became %d (a collector statement's own attribute, shared with its target, grew again)", p, d.a.List().Len(), d.b.List().Len())
@@ -859,7 +887,7 @@ func (p *projector) stmt(s *sysl.Statement) string {
 	case *sysl.Statement_Alt:
 		var ch []string
 		for _, c := range x.Alt.GetChoice() {
-			ch = append(ch, p.stmts(c.GetStmt()))
+			ch = append(ch, "SBlock "+p.stmts(c.GetStmt()))
 		}
 		return "SAlt [" + strings.Join(ch, ";") + "]"
 	}
@@ -929,14 +957,21 @@ func postCase(in, out *sysl.Module) string {
 }
 
 // ------------------------------------------------------------------ modules built directly (route 2)
-func genAbstract(r *common.Rng) *sysl.Module {
+// knobs: collAttr 0 = scalar collector attributes only, 1 = arrays only, 2 = mixed;
+// mixin 0 = random edges, 1..3 = a chain of that depth plus noise, forward (A -|> B -|> C, sources sorted later:
+// unsettled from depth 2) or backward (D -|> C -|> B, sources sorted earlier: settled)
+func genAbstract(r *common.Rng, collAttr, mixin int, backward bool) *sysl.Module {
 	m := &sysl.Module{Apps: map[string]*sysl.Application{}}
 	names := []string{"A", "B", "C", "D"}
 	na := 1 + r.Intn(4)
+	if mixin > 0 && na < mixin+1 {
+		na = mixin + 1
+	}
 	epn := []string{"E0", "E1", "E2"}
 	keys := []string{"patterns", "k1", "k2"}
+	scalarOnly, arrayOnly := false, false
 	mkAttr := func() *sysl.Attribute {
-		if r.Chance(2, 3) {
+		if !scalarOnly && (arrayOnly || r.Chance(2, 3)) {
 			a := &sysl.Attribute_Array{}
 			n := r.Intn(3)
 			for i := 0; i < n; i++ {
@@ -987,12 +1022,22 @@ func genAbstract(r *common.Rng) *sysl.Module {
 		if r.Chance(1, 2) {
 			a.Attrs = map[string]*sysl.Attribute{"patterns": {Attribute: &sysl.Attribute_A{A: &sysl.Attribute_Array{Elt: []*sysl.Attribute{{Attribute: &sysl.Attribute_S{S: "abstract"}}}}}}}
 		}
-		for j := 0; j < 4; j++ {
-			if j != i && r.Chance(1, 3) {
-				a.Mixin2 = append(a.Mixin2, &sysl.Application{Name: &sysl.AppName{Part: []string{names[j]}}})
+		switch {
+		case mixin == 0:
+			for j := 0; j < 4; j++ {
+				if j != i && r.Chance(1, 3) {
+					a.Mixin2 = append(a.Mixin2, &sysl.Application{Name: &sysl.AppName{Part: []string{names[j]}}})
+				}
 			}
+		case !backward && i < mixin:
+			a.Mixin2 = append(a.Mixin2, &sysl.Application{Name: &sysl.AppName{Part: []string{names[i+1]}}})
+		case backward && i >= 1 && i <= mixin:
+			a.Mixin2 = append(a.Mixin2, &sysl.Application{Name: &sysl.AppName{Part: []string{names[i-1]}}})
 		}
 		nt := r.Intn(3)
+		if mixin > 0 {
+			nt = 1 + r.Intn(2)
+		}
 		for j := 0; j < nt; j++ {
 			if a.Types == nil {
 				a.Types = map[string]*sysl.Type{}
@@ -1014,10 +1059,12 @@ func genAbstract(r *common.Rng) *sysl.Module {
 			c := &sysl.Endpoint{Name: collectorName}
 			n := 1 + r.Intn(4)
 			for j := 0; j < n; j++ {
+				scalarOnly, arrayOnly = collAttr == 0, collAttr == 1
 				at := mkAttrs()
 				if at == nil {
 					at = map[string]*sysl.Attribute{"patterns": mkAttr()}
 				}
+				scalarOnly, arrayOnly = false, false
 				if r.Bool() {
 					c.Stmt = append(c.Stmt, &sysl.Statement{Stmt: &sysl.Statement_Action{Action: &sysl.Action{Action: epn[r.Intn(len(epn))]}}, Attrs: at})
 				} else {
@@ -1043,6 +1090,9 @@ type runner struct {
 	post   *common.Cases
 	re     *srcRegex
 	nJSONCoq int
+	files    *common.Cases
+	fileBudget int
+	prev     map[string][]byte // the longest earlier output per encoding: what a re-used output path may hold
 	cleanBytes int
 	rot      int
 	allImports bool // re-import through every encoding (thorough, regression, replay); otherwise .pb and one other in rotation
@@ -1063,6 +1113,7 @@ func (rn *runner) judgeModule(m *sysl.Module, base replay, label string, jsonToC
 			rn.failf("encode-error:"+e.name, rp, "%s: %s encoder failed: %v", label, e, err)
 			continue
 		}
+		rn.fileOverwrite(m, e, b, rp, label)
 		if e.name == "json" && !json.Valid(b) {
 			rn.failf("json:malformed", rp, "%s: %s output is not well-formed JSON", label, e)
 		}
@@ -1108,6 +1159,74 @@ func (rn *runner) judgeModule(m *sysl.Module, base replay, label string, jsonToC
 	}
 	if jsonToCoq {
 		rn.jsonCase(m, base)
+	}
+}
+
+// the file writers (the functions `sysl pb -o` uses) onto a path that already holds (a) a longer earlier output,
+// (b) a shorter one, (c) unrelated bytes: the file must afterwards decode to the model that was written
+func (rn *runner) fileOverwrite(m proto.Message, e encoding, fresh []byte, base replay, label string) {
+	if rn.prev == nil {
+		rn.prev = map[string][]byte{}
+	}
+	longer := rn.prev[e.String()]
+	if len(longer) <= len(fresh) {
+		longer = append(append([]byte{}, fresh...), fresh...)
+	}
+	if len(fresh) > len(rn.prev[e.String()]) && len(fresh) < 20000 {
+		rn.prev[e.String()] = fresh
+	}
+	olds := []struct {
+		kind string
+		b    []byte
+	}{{"longer", longer}, {"shorter", fresh[:len(fresh)/2]}, {"unrelated", []byte("unrelated bytes, not a model: \x00\x01 {]\n and some more of them ........................................")}}
+	writer := map[string]string{"pb": "GeneratePBBinaryMessageFile", "json": "JSONPBWithOpt", "textpb": "TextPBWithOpt"}[e.name]
+	for _, o := range olds {
+		rp := base
+		rp.Via, rp.Note = "file-overwrite", "path held "+o.kind+" content before"
+		fs := afero.NewMemMapFs()
+		name := "out" + e.suffix
+		afero.WriteFile(fs, name, o.b, 0o644)
+		var err error
+		opt := pbutil.OutputOptions{Compact: e.compact}
+		switch e.name {
+		case "pb":
+			err = pbutil.GeneratePBBinaryMessageFile(m, name, fs)
+		case "json":
+			err = pbutil.JSONPBWithOpt(m, name, fs, opt)
+		case "textpb":
+			err = pbutil.TextPBWithOpt(m, name, fs, opt)
+		}
+		if err != nil {
+			rn.failf("encode-error:"+e.name, rp, "%s: %s file writer failed on an existing path: %v", label, e, err)
+			continue
+		}
+		content, _ := afero.ReadFile(fs, name)
+		want := len(fresh)
+		if e.name == "pb" {
+			want = proto.Size(m)
+		}
+		key := ""
+		if mm, ok := m.(*sysl.Module); ok {
+			m2, derr := pbutil.FromPB(name, fs)
+			if derr != nil || !proto.Equal(mm, m2) {
+				key = "roundtrip:" + e.name + ":file-overwrite"
+			}
+		}
+		if e.name == "json" && !json.Valid(content) {
+			key = "json:malformed:file-overwrite"
+		}
+		if key != "" || len(content) != want {
+			if len(content) > want {
+				key = "roundtrip:" + e.name + ":stale-tail"
+			} else if key == "" {
+				key = "roundtrip:" + e.name + ":file-overwrite"
+			}
+			rn.failf(key, rp, "%s: %s written with %s onto a path that held %s content (%d bytes): the file now has %d bytes instead of %d and does not decode to the model", label, e, writer, o.kind, len(o.b), len(content), want)
+		}
+		rn.c.Hist("file-overwrite:" + o.kind)
+		if rn.files != nil && e.name != "pb" && len(fresh) <= 2500 && len(o.b) <= 6000 && rn.files.N() < rn.fileBudget {
+			rn.files.Add(fmt.Sprintf("CFile %s (Some %s) %s %s", common.GString(writer), common.GString(string(o.b)), common.GString(string(fresh)), common.GString(string(content))), rp)
+		}
 	}
 }
 
@@ -1257,16 +1376,21 @@ func main() {
 	hdrClean := `From Coq Require Import String Ascii List Bool NArith. Import ListNotations.
 Require Import Verif.Base.Harness Verif.Codec.JsonClean Verif.Codec.Dispatch Verif.Codec.PostProcess Verif.Codec.Run Verif.Gen.JsonRegex Verif.Gen.PbDispatch.
 Local Open Scope string_scope.
-Definition src := {| src_regex := regex; src_cases := cases; src_after := after_switch; src_fallback := frompb_fallback |}.`
+Definition src := {| src_regex := regex; src_cases := cases; src_after := after_switch; src_fallback := frompb_fallback; src_writers := file_writers |}.`
 	hdrPost := `From Coq Require Import String Ascii List Bool NArith PArith. Import ListNotations.
 Require Import Verif.Base.Harness Verif.Codec.JsonClean Verif.Codec.Dispatch Verif.Codec.PostProcess Verif.Codec.Run Verif.Gen.JsonRegex Verif.Gen.PbDispatch.
 Local Open Scope positive_scope.
-Definition src := {| src_regex := regex; src_cases := cases; src_after := after_switch; src_fallback := frompb_fallback |}.
+Definition src := {| src_regex := regex; src_cases := cases; src_after := after_switch; src_fallback := frompb_fallback; src_writers := file_writers |}.
 Definition A := @Build_app attr. Definition E := @Build_endpoint attr.`
 	footer := `Definition M := Eval vm_compute in mismatches (c09_ok src) cases. Print M.`
 	rn.clean = c.NewCases("C09clean", hdrClean, "c09_case", footer, 120)
 	rn.disp = c.NewCases("C09disp", hdrClean, "c09_case", footer, 2000)
 	rn.post = c.NewCases("C09post", hdrPost, "c09_case", footer, 150)
+	rn.files = c.NewCases("C09file", hdrClean, "c09_case", footer, 250)
+	rn.fileBudget = 600
+	if c.Thorough() {
+		rn.fileBudget = 4000
+	}
 
 	scale := 1
 	if c.Thorough() {
@@ -1317,7 +1441,7 @@ Definition A := @Build_app attr. Definition E := @Build_endpoint attr.`
 	// 3. modules built directly
 	nAbs := 60 * scale
 	for i := 0; i < nAbs; i++ {
-		m := genAbstract(c.Rng)
+		m := genAbstract(c.Rng, i%3, (i/3)%4, (i/12)%2 == 1)
 		b := detBytes(m)
 		c.Count("abstract|"+b, true)
 		c.Hist("module:abstract")
@@ -1384,6 +1508,7 @@ Definition A := @Build_app attr. Definition E := @Build_endpoint attr.`
 	rn.clean.Close()
 	rn.disp.Close()
 	rn.post.Close()
+	rn.files.Close()
 	c.Res.Extra["json_documents_compared_in_coq"] = rn.nJSONCoq
 }
 
@@ -1409,6 +1534,11 @@ func (rn *runner) abstractCase(m0 *sysl.Module) {
 	}
 	if rn.post != nil {
 		rn.post.Add(postCase(m0, m1), rp)
+	}
+	if insideBoundary(m0) {
+		rn.c.Hist("abstract:inside-idempotence-condition")
+	} else {
+		rn.c.Hist("abstract:outside-idempotence-condition")
 	}
 	rn.judgeModule(m1, rp, "module built directly, compiled", false, true)
 }
@@ -1451,6 +1581,11 @@ func (rn *runner) syslCase(src, stream string) {
 			break
 		}
 	}
+	if insideBoundary(m) {
+		c.Hist("sysl:inside-idempotence-condition")
+	} else {
+		c.Hist("sysl:outside-idempotence-condition")
+	}
 	c.Sample(map[string]interface{}{"stream": stream, "sysl": src})
 	small := len(src) < 400
 	rn.judgeModule(m, replay{Kind: "sysl", Files: files, Root: "m.sysl"}, stream+" specification", false, true)
@@ -1491,6 +1626,7 @@ func (rn *runner) replay(rp replay, repo string) {
 		}
 		rn.post = nil
 		rn.clean = nil
+		rn.files = nil
 		rn.judgeModuleOnly(m, rp)
 	case "corpus":
 		m, err := compileCorpus(repo, rp.Path)
@@ -1505,7 +1641,7 @@ func (rn *runner) replay(rp replay, repo string) {
 			fmt.Println("replay message is not a module:", err)
 			return
 		}
-		rn.post, rn.clean, rn.allImports = nil, nil, true
+		rn.post, rn.clean, rn.files, rn.allImports = nil, nil, nil, true
 		rn.abstractCase(m)
 	case "msg":
 		m := &sysl.Module{}
@@ -1513,7 +1649,7 @@ func (rn *runner) replay(rp replay, repo string) {
 			fmt.Println("replay message is not a module:", err)
 			return
 		}
-		rn.post, rn.clean = nil, nil
+		rn.post, rn.clean, rn.files = nil, nil, nil
 		rn.judgeModule(m, rp, "replayed message", false, false)
 	case "regex":
 		out := rn.re.re.ReplaceAll([]byte(rp.Doc), []byte(rn.re.tmpl))
@@ -1528,7 +1664,7 @@ func (rn *runner) replay(rp replay, repo string) {
 }
 
 func (rn *runner) judgeModuleOnly(m *sysl.Module, rp replay) {
-	rn.post, rn.clean, rn.allImports = nil, nil, true
+	rn.post, rn.clean, rn.files, rn.allImports = nil, nil, nil, true
 	base := rp
 	base.Enc, base.Via = "", ""
 	rn.judgeModule(m, base, "replayed module", false, true)
